@@ -72,6 +72,24 @@ func runNLRace(col *trace.Collector, seed int64, rounds int) (hooks []verifhook.
 	if w := nlBarrier(col, vn, ps[0], 20*time.Second); w != "" {
 		return nil, nil, "race node: barrier after the notice: " + w, 0
 	}
+	// what the node has learnt about a node through a neighbour stays when that node connects directly: establishing
+	// the session ADDS the edge to the peer's row (NetCore EstKnown), it does not replace the row
+	_ = ps[1].SendRoute(peer.RoutingUpdate{NodeID: "pz", UpdateID: fmt.Sprintf("race-pz-%d", seed), UpdateEpoch: 1000, UpdateSequence: 5,
+		Connections: map[string]float64{"q": 1, "r": 2}, ForwardingNode: ps[1].ID})
+	if w := nlBarrier(col, vn, ps[1], 20*time.Second); w != "" {
+		return nil, nil, "race node: barrier after the relayed row: " + w, 0
+	}
+	pz, err := n.Attach("pz")
+	if err != nil {
+		return nil, nil, err.Error(), 0
+	}
+	pz.Seq = 5
+	if err := pz.Handshake("n1", 1, map[string]float64{"q": 1, "r": 2}); err != nil {
+		return nil, nil, "race node: handshake of the known node: " + err.Error(), 0
+	}
+	if w := nlBarrier(col, vn, pz, 20*time.Second); w != "" {
+		return nil, nil, "race node: barrier after the known node connected: " + w, 0
+	}
 	const burst = 8
 	raceFrom = col.Len()
 	for r := 0; r < rounds; r++ {
